@@ -140,6 +140,38 @@ def advance_cases(rng, tier):
     return out
 
 
+def table_branch_cases(rng, tier):
+    """TBB / TBH against the executable specification Spec/TableBranch.v: table in flat memory, base register possibly the PC,
+    instruction at a word-aligned address and at an address that is 2 modulo 4"""
+    from props.c02 import mk_state, set_reg, b
+    t = statelib.load_index(C.GEN)['tables']
+    out = []
+    n_cases = 60 if tier == 'quick' else 3000
+    ipc = t['rnames'].index('PC')
+    for _ in range(n_cases):
+        cfgd, st, secure = mk_state(rng, t, True)
+        arch, jaz = cfgd['arch_version'], int(cfgd['jazelle_accepts_execution'])
+        pc = rng.choice([0x1000, 0x1002, 0x1010, 0x1026])
+        st['R'][ipc] = pc
+        st['opcode'], st['opcode_len'] = 0xE8D0F000, 32
+        is_tbh = rng.choice([0, 1])
+        n = rng.choice([15, 15, 0, 3, 7])
+        m = rng.choice([1, 2, 5])
+        idx = rng.randrange(0, 40)
+        if n != 15:
+            set_reg(st, t, n, rng.choice([0x1040, 0x1041, 0x1080]))
+        set_reg(st, t, m, idx)
+        cfg = statelib.coq_config(cfgd, t)
+        ms = statelib.coq_machine(st)
+        rd = f'(fun a sz s => MemU_get_flat {arch} false {b(secure)} s a sz)'
+        fields = [0, is_tbh, m, n]
+        model = f'(enc_out enc_machine enc_unit (TbbTbh_execute {cfg} 0 {is_tbh} {m} {n} {ms}))'
+        spec = f'(enc_out enc_machine enc_unit (TBB_TBH {rd} {jaz} {ms} {is_tbh} {m} {n}))'
+        out.append({'impl': {'kind': 'exec', 'state': st, 'module': 'tbb_tbh', 'cls': 'TbbTbh', 'fields': fields},
+                    'model': model, 'spec': spec, 'label': 'table_branch', 'nontrivial': True})
+    return out
+
+
 def units():
     ex = ['C04_B', 'C04_BL_BLX_imm', 'C04_BLX_reg', 'C04_BX', 'C04_CBZ', 'C04_BranchWritePC', 'C04_BXWritePC', 'C04_LoadWritePC',
           'C04_ALUWritePC', 'C04_aligned', 'C04_link_arm', 'C04_link_thumb']
@@ -152,4 +184,6 @@ def units():
                   'opcodes.abstract_opcodes.cbz.Cbz.execute'], exec_cases, IMPORTS, SPEC_IMPORTS),
             Unit('branch_offsets', off, ['Proofs/BranchProofs.v'], [], offset_cases, IMPORTS,
                  SPEC_IMPORTS),
-            Unit('pc_advance', adv, ['Proofs/BranchProofs.v'], ['arm_v6.ArmV6.increment_pc_if_needed'], advance_cases, IMPORTS, SPEC_IMPORTS)]
+            Unit('pc_advance', adv, ['Proofs/BranchProofs.v'], ['arm_v6.ArmV6.increment_pc_if_needed'], advance_cases, IMPORTS, SPEC_IMPORTS),
+            Unit('table_branch', [], [], [], table_branch_cases, IMPORTS,
+                 SPEC_IMPORTS + '\nFrom ArmV Require Import Spec.Hub Spec.Memory Spec.BlockTransfer Spec.TableBranch.')]
